@@ -21,7 +21,7 @@ ID = "C04"
 LEVEL = "exploration"
 DESIGN_REF = "DESIGN.md 4/C04"
 RULE = (
-    "case = (expression tree, rendering style): all trees of depth 1 over the full 34-literal alphabet (every integer base, digit separators, every real-literal notation incl. negative exponents); all trees of depth 2 in "
+    "case = (expression tree, rendering style): all trees of depth 1 over the full 40-literal alphabet (incl. strings that are canonically equivalent but differently composed: KELVIN SIGN / K, GREEK QUESTION MARK / ;, e + combining acute / precomposed) (every integer base, digit separators, every real-literal notation incl. negative exponents); all trees of depth 2 in "
     "which at most one operand of a binary operator is non-literal (both sides), unary and attribute operators over depth 1, over "
     "the tier's mixed-kind literal sub-alphabet (quick 5, thorough 13 literals) and over an all-rational (5) and a boolean/rational (5) alphabet; 17 binary, 3 unary operators, attributes {min,max,count,"
     "nonexistent}; 4 renderings each; identifiers as operands: all depth-1 trees over 7 identifiers (constants of the section, a constant of another type, an unknown name), 3 literals and a set containing "
@@ -35,7 +35,7 @@ ASSUMPTIONS = [
 ]
 
 LITS_FULL = ["0", "1", "2", "3", "7", "0x10", "0b1_1", "0o17", "1_0", "1.5", "2e1", ".5", "1e-3", "25e-1", "1.5E+1", "0.1", "1_0.2_5", "3.", "1.e1", "00.5", "0X1f", "0B10", "0O7", "0_0",
-             "true", "false", "'a'", '"b"', "'aé'",
+             "true", "false", "'a'", '"b"', "'aé'", "'K'", "'\u212a'", "'e\u0301'", "'\u00e9'", "';'", "'\u037e'",
              ["set", ["1", "2"]], ["set", ["2", "3"]], ["set", ["1.5"]], ["set", ["'a'", "'b'"]], ["set", ["true"]]]
 LITS_QUICK = ["0", "3", "1.5", "true", ["set", ["1", "2"]]]  # strings: depth 1 (full alphabet) and the thorough tier
 LITS_THOROUGH = ["0", "1", "3", "0x10", "1.5", ".5", "true", "false", "'a'", '"b"', ["set", ["1", "2"]], ["set", ["2", "3"]], ["set", ["'a'", "'b'"]]]
